@@ -1,6 +1,7 @@
 package main
 
 import (
+	"go/token"
 	"go/ast"
 	"sort"
 	"fmt"
@@ -1030,6 +1031,19 @@ func (ft *funcTrans) localCells(b *ssa.BasicBlock) map[string]*Loc {
 			continue
 		}
 		for _, in := range blk.Instrs {
+			if al, isAlloc := in.(*ssa.Alloc); isAlloc && al.Heap {
+				// a named local or parameter that escapes (captured by a closure, address taken)
+				switch al.Comment {
+				case "", "complit", "new", "varargs", "makeslice", "slicelit", "makemap", "makechan":
+				default:
+					if token.IsIdentifier(al.Comment) {
+						if v, ok := ft.vals[al]; ok && v.L == nil && v.Bad == "" && v.Tup == nil {
+							cells[al.Comment] = ft.locOfRef(v.T.S, al.Type().(*types.Pointer).Elem())
+						}
+					}
+				}
+				continue
+			}
 			dr, ok := in.(*ssa.DebugRef)
 			if !ok || !dr.IsAddr {
 				continue
